@@ -506,3 +506,74 @@ def pubsub_fwd(case, rp):
                                 found_by='exhaustive native enumeration (%d cases)' % n)
     return dict(confirmed=False, detail='all %d flag/origin/direction cases '
                 'satisfy the hop contract natively' % n)
+
+
+# ------------------------------------------------------------------------------
+# C19
+#
+TD_ALIASES = [('cpu_processes', 'ranks'), ('cpu_threads', 'cores_per_rank'),
+              ('cpu_thread_type', 'threading_type'), ('gpu_processes', 'gpus_per_rank'),
+              ('gpu_process_type', 'gpu_type'), ('lfs_per_process', 'lfs_per_rank'),
+              ('mem_per_process', 'mem_per_rank'), ('scheduler', 'raptor_id'),
+              ('worker_file', 'raptor_file'), ('worker_class', 'raptor_class')]
+
+
+def check_verify(rp, d):
+    """clauses of C19 on TaskDescription._verify for the description dict d"""
+    td = rp.TaskDescription(from_dict=copy.deepcopy(d))
+    before = copy.deepcopy(td.as_dict())
+    try:
+        td._verify()
+    except ValueError as e:
+        return [], 'ValueError'
+    except Exception as e:
+        return ['raised %r' % e], None
+    after = copy.deepcopy(td.as_dict())
+    probs = []
+    for dep, new in TD_ALIASES:
+        if before.get(dep):
+            if after.get(new) != before.get(dep):
+                probs.append('%s=%r was not carried over to %s (is %r)'
+                             % (dep, before.get(dep), new, after.get(new)))
+            if after.get(dep):
+                probs.append('deprecated %s still set to %r' % (dep, after.get(dep)))
+        elif after.get(new) != before.get(new):
+            probs.append('%s changed from %r to %r' % (new, before.get(new), after.get(new)))
+    td2 = rp.TaskDescription(from_dict=copy.deepcopy(after))
+    try:
+        td2._verify()
+        if td2.as_dict() != after:
+            probs.append('not idempotent: second _verify changed %s' % sorted(
+                k for k in after if td2.as_dict().get(k) != after.get(k)))
+    except Exception as e:
+        probs.append('second _verify raised %r' % e)
+    return probs, None
+
+
+@builder('task_description.py:TaskDescription._verify')
+def td_verify(case, rp):
+    m = case.get('model') or {}
+    d = {k: v for k, v in (m.get('self') or {}).items() if v is not None}
+    if d:
+        probs, raised = check_verify(rp, d)
+        if probs:
+            return dict(confirmed=True, detail='; '.join(probs[:3]), input=d)
+    # bounded native search: every single deprecated attribute set, two modes
+    n = 0
+    samples = {'cpu_processes': 3, 'cpu_threads': 2, 'cpu_thread_type': 'OpenMP',
+               'gpu_processes': 2, 'gpu_process_type': 'CUDA',
+               'lfs_per_process': 10, 'mem_per_process': 20,
+               'scheduler': 'master.0', 'worker_file': 'w.py', 'worker_class': 'W'}
+    for mode, extra in (('task.executable', {'executable': '/bin/true'}),
+                        ('task.function', {'function': 'f'}),
+                        (None, {'executable': '/bin/true'})):
+        for dep, val in samples.items():
+            n += 1
+            d = dict(extra); d[dep] = val
+            if mode: d['mode'] = mode
+            probs, raised = check_verify(rp, d)
+            if probs:
+                return dict(confirmed=True, detail='; '.join(probs[:3]), input=d,
+                            found_by='bounded native search (%d cases)' % n)
+    return dict(confirmed=False, detail='model did not reproduce; %d native '
+                'cases hold' % n)
